@@ -34,6 +34,21 @@
 (* Direct sampler: Validate probes target.sample once; every Draw is one   *)
 (* call of the target's own sampling method.                               *)
 (*                                                                         *)
+(* A sampler object outlives its target (the experimental Sampler.target   *)
+(* setter: "Set the target density. Runs validation of the target";        *)
+(* HybridGibbs assigns a new conditional to every block sampler on every   *)
+(* sweep).  The posterior c therefore reaches the sampler on one of the    *)
+(* paths `via`:                                                            *)
+(*   ctor         Validate    the constructor is given c                   *)
+(*   set_none     ConstructBase (no target) . SetTarget(c)                 *)
+(*   set_valid    ConstructBase (a supported posterior BaseInst(c)) .      *)
+(*                SetTarget(c)                                             *)
+(*   set_stepped  ConstructBase (BaseInst(c)) . StepBase . SetTarget(c)    *)
+(* SetTarget runs the same validation as Validate: the decision must not   *)
+(* depend on what the sampler held before (DecisionIgnoresHistory), and    *)
+(* everything computed afterwards belongs to c (DrawnIsTarget on every     *)
+(* path).                                                                  *)
+(*                                                                         *)
 (* Logarithms are symbolic: a value is <<q0, q2, q3, q5>> = q0 + q2 log 2  *)
 (* + q3 log 3 + q5 log 5 with rational coefficients.                       *)
 (*                                                                         *)
@@ -41,12 +56,16 @@
 (*   DevShapeLen        shape uses len(b)/2 instead of rank/2              *)
 (*   DevScaleAtCurrent  L evaluated at the current point instead of 1      *)
 (*   DevNoProbe         no validation of the functional dependence         *)
+(*   DevValidateFirstOnly  only the first target of a sampler is validated *)
+(*   DevStalePair       the conjugate pair of the first target is kept     *)
 (***************************************************************************)
 EXTENDS DiffOps
 
 CONSTANTS MaxG,               \* largest i.i.d. Gaussian dimension
           Tables,             \* TRUE: include the decision-table rows
-          DevShapeLen, DevScaleAtCurrent, DevNoProbe
+          DevShapeLen, DevScaleAtCurrent, DevNoProbe,
+          NumSetPaths,        \* paths (besides "ctor") on which the numeric sweep instances reach the sampler
+          DevValidateFirstOnly, DevStalePair
 
 VARIABLES pc,      \* "new", "built", "accepted", "rejected", "computed", "done"
           geo,     \* structure of the likelihood computed when the posterior is built
@@ -54,13 +73,19 @@ VARIABLES pc,      \* "new", "built", "accepted", "rejected", "computed", "done"
           cur,     \* current point of the sampler (integer)
           sweep,   \* number of draws made
           draws,   \* values returned by the base generator / target.sample, in call order
-          chain    \* recorded chain
+          chain,   \* recorded chain
+          via,     \* path on which the posterior c reaches the sampler (fixed per behaviour)
+          held,    \* what the sampler object holds: "unborn" (no sampler yet), "none", "base", "own" (= c)
+          bsteps   \* steps made on the base posterior before c was assigned
 
-vars == <<c, pc, geo, sr, cur, sweep, draws, chain>>
+vars == <<c, pc, geo, sr, cur, sweep, draws, chain, via, held, bsteps>>
 
 NSweeps  == 2
 InitCur  == 3
 DrawVals == {2, 4}
+BaseDraw == 5                 \* value drawn in the step made on the base posterior
+ProbeVal == 1                 \* value returned to a probe of the direct sampler's validation
+Vias     == {"ctor", "set_none", "set_valid", "set_stepped"}
 
 \* ---------------------------------------------------------------- symbolic logs
 SC(r)       == <<r, Zero, Zero, Zero>>
@@ -148,7 +173,17 @@ Samplable     == {"gamma", "gaussian", "gmrf"}
 DirectRows == { Inst("direct", 1, n, "zero", 1, 1, "", "", 1, 1, 0, 1, t) : n \in {1, 3}, t \in DirectTargets }
                 \ { Inst("direct", 1, 1, "zero", 1, 1, "", "", 1, 1, 0, 1, t) : t \in {"gmrf", "lmrf"} }
 
-Instances == NumGMRF \cup NumGauss \cup (IF Tables THEN TableGauss \cup TableGMRF \cup LMRFRows \cup DirectRows ELSE {})
+TableRows == TableGauss \cup TableGMRF \cup LMRFRows \cup DirectRows
+Instances == NumGMRF \cup NumGauss \cup (IF Tables THEN TableRows ELSE {})
+
+\* paths on which an instance reaches a sampler: every row of the decision table on every path
+ViaOf(k) == IF Tables /\ k \in TableRows THEN Vias ELSE {"ctor"} \cup NumSetPaths
+
+\* the supported posterior a sampler holds before c is assigned to it (same sampler class, same parameter dimension)
+BaseInst(k) ==
+    CASE k.fam = "direct" -> Inst("direct", 1, k.n, "zero", 1, 1, "", "", 1, 1, 0, 1, "gaussian")
+      [] k.fam = "lmrf"   -> Inst("lmrf", 1, 4, "zero", 1, 1, "scale", "reciprocal", 1, 1, 0, 1, "")
+      [] OTHER            -> Inst("gaussian", 1, 2, "none", 0, 1, "prec", "identity", 1, 1, 0, 1, "")
 
 \* ---------------------------------------------------------------- data of an instance (small integers)
 PDim(k)   == 2                                           \* domain dimension of the linear model
@@ -232,26 +267,65 @@ Conjugable(k) ==
 \* ---------------------------------------------------------------- actions
 Init10 ==
     /\ c \in Instances
+    /\ via \in ViaOf(c)
+    /\ held = "unborn" /\ bsteps = 0
     /\ pc = "new" /\ geo = NoGeo /\ sr = <<Zero, Zero>> /\ cur = InitCur /\ sweep = 0 /\ draws = <<>> /\ chain = <<>>
 
 Build ==
     /\ pc = "new"
     /\ geo' = IF c.fam = "direct" \/ c.gdim = 2 THEN NoGeo ELSE Structure10(c)
     /\ pc' = "built"
-    /\ UNCHANGED <<c, sr, cur, sweep, draws, chain>>
+    /\ UNCHANGED <<c, sr, cur, sweep, draws, chain, via, held, bsteps>>
 
-Validate ==
-    /\ pc = "built"
-    /\ pc' = IF ValidateOutcome(c) THEN "accepted" ELSE "rejected"
+\* a sampler object exists before c reaches it: constructed without a target or with the supported posterior BaseInst(c)
+\* (the direct sampler probes the sampling method of that posterior once)
+ConstructBase ==
+    /\ pc = "built" /\ via # "ctor" /\ held = "unborn"
+    /\ held' = IF via = "set_none" THEN "none" ELSE "base"
+    /\ draws' = IF c.fam = "direct" /\ via # "set_none" THEN Append(draws, ProbeVal) ELSE draws
+    /\ UNCHANGED <<c, pc, geo, sr, cur, sweep, chain, via, bsteps>>
+
+\* one step on the base posterior: its draw becomes the current point and the first element of the chain
+StepBase ==
+    /\ pc = "built" /\ via = "set_stepped" /\ held = "base" /\ bsteps = 0
+    /\ bsteps' = 1
+    /\ cur' = BaseDraw
+    /\ draws' = Append(draws, BaseDraw)
+    /\ chain' = Append(chain, BaseDraw)
+    /\ UNCHANGED <<c, pc, geo, sr, sweep, via, held>>
+
+\* validation run whenever a target is given to the sampler; `h` = what the sampler held before
+Outcome(k, h) == IF DevValidateFirstOnly /\ h = "base" THEN TRUE ELSE ValidateOutcome(k)
+
+Receive ==
+    /\ pc' = IF Outcome(c, held) THEN "accepted" ELSE "rejected"
+    /\ held' = "own"
     \* the direct sampler probes the target's sampling method once (a draw that is not part of the chain)
-    /\ draws' = IF c.fam = "direct" /\ ValidateOutcome(c) THEN <<1>> ELSE draws
-    /\ UNCHANGED <<c, geo, sr, cur, sweep, chain>>
+    /\ draws' = IF c.fam = "direct" /\ Outcome(c, held) THEN Append(draws, ProbeVal) ELSE draws
+    /\ UNCHANGED <<c, geo, sr, cur, sweep, chain, via, bsteps>>
+
+\* the constructor is given the posterior c
+Validate ==
+    /\ pc = "built" /\ via = "ctor" /\ held = "unborn"
+    /\ Receive
+
+\* the posterior c is assigned to the target of the existing sampler
+SetTarget ==
+    /\ pc = "built"
+    /\ \/ via = "set_none" /\ held = "none"
+       \/ via = "set_valid" /\ held = "base"
+       \/ via = "set_stepped" /\ held = "base" /\ bsteps = 1
+    /\ Receive
+
+\* the posterior whose conjugate pair the sampler works with
+PairInst == IF DevStalePair /\ via \in {"set_valid", "set_stepped"} THEN BaseInst(c) ELSE c
+PairGeo  == IF DevStalePair /\ via \in {"set_valid", "set_stepped"} THEN Structure10(BaseInst(c)) ELSE geo
 
 ComputeShapeRate ==
     /\ pc = "accepted" /\ c.fam \in {"gaussian", "gmrf"}
-    /\ sr' = UnitUpdate(c, geo, IF DevScaleAtCurrent THEN cur ELSE 1)
+    /\ sr' = UnitUpdate(PairInst, PairGeo, IF DevScaleAtCurrent THEN cur ELSE 1)
     /\ pc' = "computed"
-    /\ UNCHANGED <<c, geo, cur, sweep, draws, chain>>
+    /\ UNCHANGED <<c, geo, cur, sweep, draws, chain, via, held, bsteps>>
 
 DrawTo(v) ==
     /\ draws' = Append(draws, v)
@@ -263,21 +337,33 @@ DrawTo(v) ==
 Draw ==
     /\ pc = "computed"
     /\ \E v \in DrawVals : (sweep = 0 \/ v # cur) /\ DrawTo(v)
-    /\ UNCHANGED <<c, geo, sr>>
+    /\ UNCHANGED <<c, geo, sr, via, held, bsteps>>
 
 \* direct sampler and approximate sampler: no shape/rate is predicted, the draw is the target's / generator's value
 DrawOther ==
     /\ pc = "accepted" /\ c.fam \in {"direct", "lmrf"}
     /\ \E v \in DrawVals : (sweep = 0 \/ v # cur) /\ DrawTo(v)
-    /\ UNCHANGED <<c, geo, sr>>
+    /\ UNCHANGED <<c, geo, sr, via, held, bsteps>>
 
-Next10 == Build \/ Validate \/ ComputeShapeRate \/ Draw \/ DrawOther
+Next10 == Build \/ ConstructBase \/ StepBase \/ Validate \/ SetTarget \/ ComputeShapeRate \/ Draw \/ DrawOther
 Spec10 == Init10 /\ [][Next10]_vars
 
 \* ---------------------------------------------------------------- properties
 TypeOK10 ==
     /\ pc \in {"new", "built", "accepted", "rejected", "computed", "done"}
-    /\ sweep \in 0..NSweeps /\ Len(chain) = sweep
+    /\ sweep \in 0..NSweeps /\ Len(chain) = sweep + bsteps
+    /\ via \in Vias /\ held \in {"unborn", "none", "base", "own"} /\ bsteps \in {0, 1}
+    /\ (via = "ctor" => held \in {"unborn", "own"} /\ bsteps = 0)
+    /\ (pc \in {"accepted", "rejected", "computed", "done"} <=> held = "own")
+
+\* the posterior held before c is one the sampler supports (otherwise the set_valid / set_stepped paths do not exist)
+BaseSupported ==
+    /\ Accept(BaseInst(c)) /\ ValidateOutcome(BaseInst(c))
+    /\ BaseInst(c) \in Instances
+
+\* the accept / reject decision on a target is the documented one whatever the sampler held before
+DecisionIgnoresHistory ==
+    held = "own" => ((pc # "rejected") = Accept(c))
 
 \* the Gamma distribution drawn from has a log-density that differs from the target's own by a constant
 DrawnIsTarget ==
@@ -300,17 +386,28 @@ RejectionJustified ==
 
 \* the update never looks at the current point: both sweeps use the same Gamma
 SameGammaEverySweep ==
-    pc \in {"computed", "done"} /\ Numeric(c) => sr = UnitUpdate(c, geo, 1)
+    pc \in {"computed", "done"} /\ Numeric(c) => sr = UnitUpdate(PairInst, PairGeo, 1)
 
 \* the chain is the sequence of values returned by the generator / the target's sampling method
+\* (the probes of the direct sampler's validation, value ProbeVal, are not part of the chain)
 ChainIsDraws ==
-    chain = SubSeq(draws, Len(draws) - Len(chain) + 1, Len(draws))
+    chain = SelectSeq(draws, LAMBDA v : v # ProbeVal)
 
 LogsDefined ==
     pc = "built" /\ Numeric(c) =>
         \A t \in {2, 4} : LogDefined(RDiv(SFun(c.dep, c.attr, R(t)), SFun(c.dep, c.attr, One)))
 
 \* ---------------------------------------------------------------- emission
+\* the base posterior as the harness has to build it (the Gamma of its own conjugate update for the step made on it)
+BaseRec(k) ==
+    LET num == Numeric(k)
+        u1  == IF num THEN UnitUpdate(k, Structure10(k), 1) ELSE <<Zero, Zero>>
+    IN [kind |-> "conj", fam |-> k.fam, pd |-> k.pd, n |-> k.n, gbc |-> k.gbc, gorder |-> k.gorder, wm |-> k.wm,
+        attr |-> k.attr, dep |-> k.dep, gdim |-> k.gdim, occ |-> k.occ, model |-> k.model, v |-> k.v, tgt |-> k.tgt,
+        accept |-> Accept(k),
+        b |-> BVec(k), mu0 |-> Mu0(k), u |-> UVec(k), A |-> AMat(k), xin |-> XIn(k),
+        alpha |-> Alpha(k), beta |-> Beta(k), shape |-> u1[1], rate |-> u1[2]]
+
 CaseRec ==
     LET k == c
         num == Numeric(k)
@@ -324,7 +421,8 @@ CaseRec ==
         m |-> geo.m, k |-> geo.k, nrows |-> geo.nrows, q |-> geo.a0, l1 |-> geo.l1,
         shape |-> u1[1], rate |-> u1[2],
         P |-> IF k.fam = "gmrf" THEN Prec(DC(k)) ELSE <<>>,
-        init |-> InitCur, chain |-> chain, draws |-> draws]
+        init |-> InitCur, chain |-> chain, draws |-> draws,
+        via |-> via, bsteps |-> bsteps, basedraw |-> BaseDraw, base |-> BaseRec(BaseInst(k))]
 
 EmitCases ==
     (Emit /\ (pc = "rejected" \/ pc = "done")) => PrintT("@@CASE " \o ToJson(CaseRec) \o " @@END")
